@@ -508,6 +508,11 @@ class Body:
 
     def call_expr(self, t, site):
         c = t["callee"]
+        m0 = ATOMIC_RE.match(c.get("def") or "")
+        if m0 and m0.group(1) in ("compare_exchange", "compare_exchange_weak") and t["args"]:
+            # only the cell: the expected / new operands are not part of the result's identity (and evaluating them here would make
+            # the origin of a retry loop's variable cyclic)
+            return ("rmw", self.operand_expr(t["args"][0]), m0.group(1), ("unit",), site)
         args = tuple(self.operand_expr(a) for a in t["args"])
         if "def" not in c:
             return ("call", site, "<indirect>", args)
@@ -542,6 +547,10 @@ class Body:
             if op in ("store",):
                 return ("unit",)
             operand = args[1] if len(args) > 1 else ("unknown", "noarg")
+            if op in ("compare_exchange", "compare_exchange_weak"):
+                # the value a CAS returns is identified by its site; leaving the expected value out keeps the origin of a retry
+                # loop's variable (`current = actual`) acyclic
+                operand = ("unit",)
             return ("rmw", args[0], op, operand, site)
         m = ARCSWAP_RE.match(d)
         if m:
@@ -724,7 +733,8 @@ def classify_call(prog, body, bid, blk):
                     la = L(a)
                     if la[0] == "agg" and la[1] == "closure":
                         closure = la[2]
-            eff = Effect("atomic", site, s, op=op, cell=cell, operand=operand, orderings=ords, closure=closure)
+            operand2 = L(args[2]) if op in ("compare_exchange", "compare_exchange_weak") and len(args) > 2 else None
+            eff = Effect("atomic", site, s, op=op, cell=cell, operand=operand, operand2=operand2, orderings=ords, closure=closure)
         elif m2 and m2.group(1) not in ("from", "new", "from_pointee", "default", "empty"):
             op = m2.group(1)
             cell = L(args[0])
